@@ -95,6 +95,21 @@ def link_none(ctx, toks):
 SUNITS['section_inherit_sources'] = dict(file='src/Section.cpp', locator=r'std::vector<Property>\s+Section::inheritedProperties\s*\(', cls='Section', cls_file='include/nix/Section.hpp', classes=['Section', 'Property'],
     pre_rules=[link_none], inherited_methods=['linkIsNone'],
     region=dict(start=r'std::vector<Property>\s+own\s*=\s*properties\(\)\s*;', end=r'const\s+std::vector<Property>\s+linked\s*=[^;]*;', params=[], ret='std::vector<Property>', ret_expr='linked'))
+def append_idiom(ctx, toks):
+    """X.insert(X.end(), Y.begin(), Y.end())  (append Y to X)  ->  X.append(Y);   std::vector<Section> secs = root.findSections(..) is the answer value vec_SectionA"""
+    out = []; i = 0
+    while i < len(toks):
+        t = toks[i]
+        if t.k == 'id' and seq_at(toks, i + 1, ['.', 'insert', '(', t.t, '.', 'end', '(', ')', ',']) and seq_at(toks, i + 11, ['.', 'begin', '(', ')', ',', toks[i + 10].t, '.', 'end', '(', ')', ')']):
+            out.extend(tokenize('%svec_Section_append(%s, %s)' % (t.ws, t.t, toks[i + 10].t))); i += 22; fire(ctx, 'vector-append'); continue
+        if t.t == 'vec_Section' and toks[i + 1].t == 'secs':
+            out.append(Tok('id', 'vec_SectionA', t.ws)); ctx.env['secs'] = ('vec_SectionA', False); i += 1; continue
+        out.append(t); i += 1
+    return out
+SUNITS['file_find_root'] = dict(file='src/File.cpp', locator=r'std::vector<Section>\s+File::findSections\s*\(', classes=['Section', 'SectionFilterFn', 'vec_SectionA'], pre_rules=[append_idiom],
+    calls={'findSections': 'findSections_a'},
+    region=dict(start=r'if\s*\(\s*filter\(root\)\s*\)', end=r'results\.insert\(results\.end\(\),\s*secs\.begin\(\),\s*secs\.end\(\)\);',
+                params=[('const util::Filter<Section>::type &', 'filter'), ('size_t', 'max_depth'), ('std::vector<Section> &', 'results'), ('Section &', 'root')]))
 BCL = ['Source', 'Section', 'Block', 'File', 'DataArray', 'Tag', 'MultiTag', 'nstring', 'EntFilter']
 def br(cls, meth, ret, byblock=False):
     f = 'src/%s.cpp' % cls
@@ -121,13 +136,15 @@ JOBS = [dict(name='source_bfs_step', bodies=['source_bfs_step'], enforce=['sourc
 for j in JOBS: j['includes'] = ['c20_search.h']
 JOBS += [dict(name=fn, bodies=[fn], enforce=[fn], replace=[], extra_c=BEXTRA, includes=['c20_backref.h'], expect_kinds=['postcondition'], timeout=300) for fn in BUNITS]
 SEXTRA = ('SectionCont gh_front; int gh_pops, gh_filter_calls, gh_filter_node, gh_filter_ok, gh_res_pushes, gh_res_node, gh_expand_calls, gh_expand_node; size_t gh_expand_depth, gh_enq, gh_nchildren, gh_parent_depth; Section *gh_children; int gh_children_of;\n'
-          'int gh_link_none, gh_prop_calls_self, gh_prop_calls_link, gh_inh_calls;\n')
+          'int gh_link_none, gh_prop_calls_self, gh_prop_calls_link, gh_inh_calls;\n'
+          'int gh_fs_calls, gh_fs_node, gh_fs_filter, gh_fs_after_report, gh_fs_appends, gh_fs_append_serial, gh_fs_append_after_report; size_t gh_fs_depth;\n')
 JOBS += [dict(name='addChildrenIfNotMaxDepth', bodies=['addChildrenIfNotMaxDepth'], enforce=['addChildrenIfNotMaxDepth'], replace=[], extra_c=SEXTRA, includes=['c20_section.h'], loop_contracts=True,
               expect_kinds=['postcondition', 'loop_invariant_base', 'loop_invariant_step'], timeout=300),
          dict(name='addChildrenIfNotMaxDepth[bounded]', bodies=['addChildrenIfNotMaxDepth'], enforce=['addChildrenIfNotMaxDepth'], replace=[], extra_c=SEXTRA, includes=['c20_section.h'], loop_contracts=False,
               defines=['NIX_NO_LOOP_CONTRACTS', 'C20_BOUNDED=3'], cbmc_flags=['--unwind', '5', '--unwinding-assertions'], expect_kinds=['postcondition', 'unwind'], timeout=300,
               bounded='at most 3 children, loop unwound completely (twin without loop contract)'),
          dict(name='section_inherit_sources', bodies=['section_inherit_sources'], enforce=['section_inherit_sources'], replace=[], extra_c=SEXTRA, includes=['c20_section.h'], expect_kinds=['postcondition'], timeout=300),
+         dict(name='file_find_root', bodies=['file_find_root'], enforce=['file_find_root'], replace=[], extra_c=SEXTRA, includes=['c20_section.h'], expect_kinds=['postcondition'], timeout=300),
          dict(name='section_bfs_step', bodies=['section_bfs_step'], enforce=['section_bfs_step'], replace=['addChildrenIfNotMaxDepth'], extra_c=SEXTRA, includes=['c20_section.h'],
               expect_kinds=['postcondition', 'precondition'], timeout=300)]
 SPEC = dict(contracts=['c20_search.h', 'c20_backref.h', 'c20_section.h'], stubs=[], units=UNITS, jobs=JOBS,
